@@ -49,6 +49,9 @@ def configs(tier):
             out.append(("nperbin", N, False, False, 2, True, True))
     out.append(("histogram_more", 2, False, True, 2, False, False))
     out.append(("histogram_more", 3, False, False, 2, False, False))
+    # one Binner used for several binnings: each result as from a fresh object
+    out.append(("binner_reuse", 2, True, False, 2, False, False))
+    out.append(("binner_reuse", 3, False, False, 2, False, False))
     # weighted deviation of a bin of tied values, over IEEE floats (half precision; double width does not finish)
     out.append(("fpwstd", 2, False, True, 16, False, False))
     return out
@@ -82,10 +85,63 @@ def harness_fpwstd(cx, cfg):
     # z3 even at half precision (300 s); the replay measures it on doubles
 
 
+def _same(cx, label, a, b):
+    if isinstance(a, symnp.SArr) or isinstance(b, symnp.SArr):
+        la = a.tolist() if isinstance(a, symnp.SArr) else a
+        lb = b.tolist() if isinstance(b, symnp.SArr) else b
+        la = la if isinstance(la, list) else [la]
+        lb = lb if isinstance(lb, list) else [lb]
+        if not cx.check(label + " (length)", len(la) == len(lb)):
+            return
+        for u, v in zip(la, lb):
+            cx.check_eq(label, u, v)
+    else:
+        cx.check(label, (a is b) or (not symx.is_sym(a) and not symx.is_sym(b) and a == b) or (symx.is_sym(a) and symx.is_sym(b) and a.t.eq(b.t)))
+
+
+def harness_binner_reuse(cx, cfg):
+    """a Binner that already did one binning (equal occupancy / fixed width) is asked for another: every entry
+    it then holds equals what a fresh Binner of the same data computes (no left-overs of the earlier run)"""
+    _, N, have_y, have_w, k, _f, _l = cfg
+    m = _mod()
+    m.have_chist = False
+    x = [cx.real("x%d" % i) for i in range(N)]
+    y = [cx.real("y%d" % i) for i in range(N)] if have_y else None
+    w = [cx.real("w%d" % i) for i in range(N)] if have_w else None
+    if have_w:
+        for wi in w:
+            cx.assume(wi > 0)
+    bs = cx.real("binsize")
+    cx.assume(bs > 0)
+    lo, hi = symnp._minimum_cells(x), symnp._maximum_cells(x)
+    cx.assume(hi - lo < 2 * bs)
+
+    def mk():
+        return m.Binner(symnp.array(x), y=symnp.array(y) if have_y else None, weights=symnp.array(w) if have_w else None)
+    first = cx.choice("first", 2)
+    steps = [dict(nperbin=1), dict(binsize=bs)] if first == 0 else [dict(binsize=bs), dict(nperbin=1)]
+    b = mk()
+    b.dohist(rev=True, **steps[0])
+    b.calc_stats()
+    b.dohist(rev=True, **steps[1])
+    b.calc_stats()
+    f = mk()
+    f.dohist(rev=True, **steps[1])
+    f.calc_stats()
+    kb, kf = sorted(b.keys()), sorted(f.keys())
+    cx.check("a reused Binner holds the same entries as a fresh one (%s after %s)" % (list(steps[1])[0], list(steps[0])[0]), kb == kf, detail="%r vs %r" % (kb, kf))
+    for key in kf:
+        if key in b:
+            _same(cx, "a reused Binner: entry '%s' equals the fresh object's" % key, b[key], f[key])
+    cx.drop_obligations("numerical domain conditions are decided in the single-binning configurations")
+
+
 def harness(cx, cfg):
     mode, N, have_y, have_w, k, flag, limits = cfg
     if mode == "fpwstd":
         return harness_fpwstd(cx, cfg)
+    if mode == "binner_reuse":
+        return harness_binner_reuse(cx, cfg)
     m = _mod()
     m.have_chist = False
     x = [cx.real("x%d" % i) for i in range(N)]
@@ -304,6 +360,29 @@ def replay(cand):
     mode, N, have_y, have_w, k, flag, limits = cand["cfg"]
     mdl = cand["model"] or {}
     no = {"reproduced": False, "what": "agrees", "key": None}
+    if mode == "binner_reuse":
+        rs = np.random.RandomState(2)
+        xs = [np.array([model_float(mdl.get("x%d" % i, float(i))) for i in range(N)], dtype="f8"), rs.uniform(0, 10, 12), np.arange(7.0)]
+        for x_ in xs:
+            y_ = x_ * 2 + 1
+            w_ = np.linspace(0.5, 2.0, x_.size)
+            for steps in ([dict(nperbin=2), dict(binsize=1.5)], [dict(binsize=1.5), dict(nperbin=3)], [dict(nperbin=1), dict(nbin=2)]):
+                if x_.max() <= x_.min():
+                    continue
+                b = su.Binner(x_, y=y_ if have_y else None, weights=w_ if have_w else None)
+                b.dohist(rev=True, **steps[0])
+                b.calc_stats()
+                b.dohist(rev=True, **steps[1])
+                b.calc_stats()
+                f = su.Binner(x_, y=y_ if have_y else None, weights=w_ if have_w else None)
+                f.dohist(rev=True, **steps[1])
+                f.calc_stats()
+                if sorted(b.keys()) != sorted(f.keys()):
+                    return {"reproduced": True, "key": "binner:reuse", "what": "Binner reused (%r after %r): entries %r, a fresh Binner has %r" % (steps[1], steps[0], sorted(b.keys()), sorted(f.keys()))}
+                for key in f.keys():
+                    if not np.array_equal(np.asarray(b[key]), np.asarray(f[key])):
+                        return {"reproduced": True, "key": "binner:reuse", "what": "Binner reused (%r after %r): entry %r = %r, a fresh Binner gives %r" % (steps[1], steps[0], key, np.asarray(b[key]).tolist(), np.asarray(f[key]).tolist())}
+        return no
     if mode == "fpwstd":
         # the counterexample lives in half precision; in doubles the same effect shows on tied values of any
         # size: the model's values first, then a family of tied bins through histogram(weights=)
